@@ -86,7 +86,7 @@ fn resp(an: u16, ns: u16, ar: u16) -> Asm {
 // ---------------------------------------------------------------------------
 // boundary families
 
-pub const N_BOUNDARY: usize = 55;
+pub const N_BOUNDARY: usize = 56;
 
 /// Build boundary case number `k` (0..N_BOUNDARY), side `legal`.
 pub fn boundary(rng: &mut Rng, k: usize, legal: bool) -> Input {
@@ -679,6 +679,32 @@ pub fn boundary(rng: &mut Rng, k: usize, legal: bool) -> Input {
             }
             a.rrfix(T_A, 1, 4).raw(&[1, 2, 3, 4]);
             inp(a.done(), "rdlen-near-65535", legal)
+        }
+        55 => {
+            // labels reached through a pointer must all start before the name (segment) that referred to them.
+            // Illegal side: they run forward INTO the referring name, landing in the middle of its long first
+            // label on two bytes that read as a pointer to a perfectly good earlier name.
+            let mut a = resp(4, 0, 0);
+            a.ptr(12).rrfix(T_A, 1, 4).raw(&[1, 2, 3, 4]);
+            let q_off = a.pos(); // 35 = '#': a legal label byte, as the low half of the fake pointer has to be
+            a.label(b"ab").root().rrfix(T_A, 1, 4).raw(&[1, 2, 3, 4]);
+            let fill = rng.range(3, 30);
+            a.ptr(12).rrfix(T_TXT, 1, (fill + 4) as u16).raw(&vec![b'x'; fill]);
+            let t;
+            if legal {
+                t = a.pos();
+                a.raw(&[2, b'z', b'z', 0]);
+            } else {
+                a.raw(&[b'x']);
+                t = a.pos();
+                a.raw(&[6, b'z', b'z']);
+            }
+            let l = rng.range(32, 63);
+            let mut lab = vec![b'a'; l];
+            lab[3] = 0xc0 | (q_off >> 8) as u8;
+            lab[4] = q_off as u8;
+            a.label(&lab).ptr(t).rrfix(T_A, 1, 4).raw(&[1, 2, 3, 4]);
+            inp(a.done(), "pointer-target-runs-into-the-referring-name", legal)
         }
         _ => unreachable!(),
     }
